@@ -68,6 +68,7 @@ UNITS += [
              Rw("for node in tree {", "for n in it: tree.nodes.iter() { let node = vclone_node(n);", why="by-value iteration of the tree's nodes -> by reference + clone; Verus for-loop syntax"),
              Rw(r"changed \|= (?P<e>\w+);", r"changed = changed || \g<e>;", regex=True, count=None, why="`|=` on bool -> `||` (same value; Verus rejects `|` on bool)"),
              Rw("self.save_tree(", "self.vsave_tree(changed, ", count=None, why="save_tree -> effectful stub: PRECONDITION 'a change was flagged'"),
+             Rw("visitor.post_process(path, id, new_id, &new_tree);", "visitor.post_process(path, id, new_id, &new_tree, Ghost(changed));", why="ghost argument: the flag that guarded save_tree"),
              Rw("Ok(new_id.map_or_else(|| ModifierChange::Unchanged, ModifierChange::Changed))", "Ok(match new_id { None => ModifierChange::Unchanged, Some(i) => ModifierChange::Changed(i) })", why="Option::map_or_else with closure/constructor -> match (definition)"),
          ],
          contract="""
@@ -76,11 +77,16 @@ UNITS += [
         // asked for a change somewhere below it -- a visitor that changes nothing leaves every snapshot as it is
         /*@changed_result_only_if_the_visitor_reported_a_change*/ r matches Ok(c) ==> (!(c is Unchanged) ==> final(visitor).reported@),
         /*@reports_are_only_accumulated*/ old(visitor).reported@ ==> final(visitor).reported@,
+        // (implicit obligation, precondition of post_process: whenever an answer at a level demanded a rewrite -- a node changed,
+        //  was removed or created, a subtree changed or was removed -- the level's tree is rebuilt and saved)
+        /*@levels_are_balanced*/ r is Ok ==> final(visitor).dirty@ =~= old(visitor).dirty@,
 """,
          loops={1: """
             invariant
                 changed ==> visitor.reported@,
                 old(visitor).reported@ ==> visitor.reported@,
+                visitor.dirty@.len() == old(visitor).dirty@.len() + 1, visitor.dirty@.drop_last() =~= old(visitor).dirty@,
+                visitor.dirty@.last() ==> changed,
 """},
          ),
 ]
@@ -114,7 +120,7 @@ UNITS += [
 KANI = []
 META = {"not_covered": [
     "merge (blob::tree::merge_trees / merge_nodes): local trait impls, BinaryHeap, `&impl Fn` parameters, mutual recursion",
-    "the assembly of the rewritten tree from the visitor's answers in modify_tree: only the direction 'changed result / tree written => a change was reported' is under contract; the converse (a changed subtree forces the parent to be rewritten) is NOT -- the edit that drops `changed = true` in the Changed(tree_id) arm is not detected",
+    "the assembly of the rewritten tree from the visitor's answers in modify_tree (which nodes end up in the new tree): only the change flag / save discipline in both directions is under contract",
     "copy: selection of the blobs to copy (closures, TreeStreamerOnce); the byte-exact copy itself is C02's BlobCopier units, the ordering C03's copy_tail",
     "'restores identically' / 'union of paths' as whole-command statements",
 ]}
